@@ -448,7 +448,7 @@ four byte-skipping shapes (`*dns.A` / `L32` with a 16-byte non-IPv4 address,
 their harmless look-alikes (IPv4-mapped, 4-byte, empty, IPv6-typed gateway). -/
 theorem library_writes_all_on_admitted_sample :
     SdnsVerif.Gen.C15.lib_writesall_violations = 0 ∧
-    SdnsVerif.Gen.C15.admission_of_skipwriters = [0, 1, 1, 1, 0, 1, 0, 1, 0, 1] := by decide
+    SdnsVerif.Gen.C15.admission_of_skipwriters = [0, 1, 1, 1, 0, 1, 0, 1, 0, 1, 0, 0, 0, 1, 0, 0] := by decide
 
 -- a library whose A-record primitive skips its address bytes, with and without the refusal
 example : AdmitsOnlyFullWriters ({ adm := fun o => o.rest, span := fun o => if o.rest then [some 1, some 2] else [none, none] } : MaskedLib Bool) := by
@@ -761,22 +761,21 @@ theorem admit_eq_library_view {β ν δ : Type} (lib : Lib β ν δ) (hm : Mono 
     (admitWire lib m heap st fresh).1 = (libPack lib (storableView heap m) heap).1 :=
   (packClone_eq_library lib hm _ heap st fresh hst hroom hfresh).1
 
-/-- **Admission never writes into the caller's message** — on either path and
-with no hypothesis on the primitives: the view has no `*dns.OPT` left in its
-additional section, so neither the pooled packer (never) nor the library
-fallback (only ever into a selected OPT) has anything to write to. -/
-theorem admit_leaves_message {β ν δ : Type} (lib : Lib β ν δ) (m : Msg ν) (heap : Heap β)
-    (st : PState β δ) (fresh : Nat) (hN : st.buf.length = packBufferSize) :
-    (admitWire lib m heap st fresh).2.1 = heap := by
-  unfold admitWire packClone
+/-- `PackClone` of a message whose additional section holds no `*dns.OPT` the
+library would select never writes into the caller's records, on either path
+and with no hypothesis on the primitives. -/
+theorem packClone_leaves_message_without_opt {β ν δ : Type} (lib : Lib β ν δ) (m : Msg ν) (heap : Heap β)
+    (st : PState β δ) (fresh : Nat) (hN : st.buf.length = packBufferSize)
+    (hno : ∀ p, isEdns0 heap m.extra ≠ some (some p)) :
+    (packClone lib m heap st fresh).2.1 = heap := by
+  unfold packClone
   simp only
-  have hheap := message_unchanged lib (storableView heap m) heap st hN
-  cases (tryPack lib (storableView heap m) heap st).handled with
+  have hheap := message_unchanged lib m heap st hN
+  cases (tryPack lib m heap st).handled with
   | true => simpa using hheap
   | false =>
     simp only [Bool.false_eq_true, if_false, hheap]
-    have hno := storableView_no_opt heap m
-    have hlib := libPack_heap_of_no_opt lib (storableView heap m) heap hno
+    have hlib := libPack_heap_of_no_opt lib m heap hno
     unfold libraryPackImmutable
     split
     · exact hlib
@@ -789,6 +788,57 @@ theorem admit_leaves_message {β ν δ : Type} (lib : Lib β ν δ) (m : Msg ν)
           rw [opt_selection_eq_isEdns0, hsel]
           rfl
         · exact hlib
+
+/-- **Admission never writes into the caller's message** — on either path and
+with no hypothesis on the primitives: the view has no `*dns.OPT` left in its
+additional section, so neither the pooled packer (never) nor the library
+fallback (only ever into a selected OPT) has anything to write to. -/
+theorem admit_leaves_message {β ν δ : Type} (lib : Lib β ν δ) (m : Msg ν) (heap : Heap β)
+    (st : PState β δ) (fresh : Nat) (hN : st.buf.length = packBufferSize) :
+    (admitWire lib m heap st fresh).2.1 = heap :=
+  packClone_leaves_message_without_opt lib _ heap st fresh hN (storableView_no_opt heap m)
+
+/-- **The DO=0 body of a cache entry** (`prepareStripped`) is, exactly when one
+is due, the library's encoding of the storable view without its RRSIG / NSEC /
+NSEC3 records — provided that encoding is byte-servable — whether the pooled
+packer handled the stripped view or declined it (a stripped view still larger
+than the pooled buffer gets its body from the fallback, not none); preparing
+it never writes into the caller's message. -/
+theorem stripped_body_is_library {β ν δ : Type} (lib : Lib β ν δ) (hm : Mono lib) (isSec : Obj β → Bool)
+    (servable : Bytes → Bool) (due : Bool) (m : Msg ν) (heap : Heap β) (st : PState β δ) (fresh : Nat)
+    (hst : Clean lib st)
+    (hroom : (libPack lib (strippedView isSec heap m) heap).1 =
+      (libPackWith lib (strippedView isSec heap m) heap
+        (max (libBufLen lib (strippedView isSec heap m) heap) packBufferSize)).1)
+    (hfresh : ∀ s ∈ (strippedView isSec heap m).records, s ≠ some fresh) :
+    (prepareStripped lib isSec servable due m heap st fresh).1 =
+      (if due then
+        (match (libPack lib (strippedView isSec heap m) heap).1 with
+          | .ok b => if servable b then some b else none
+          | _ => none)
+       else none) ∧
+    (prepareStripped lib isSec servable due m heap st fresh).2.1 = heap := by
+  unfold prepareStripped
+  cases due with
+  | false => simp
+  | true =>
+    simp only [Bool.not_true, Bool.false_eq_true, if_false, if_true]
+    have h1 := (packClone_eq_library lib hm (strippedView isSec heap m) heap st fresh hst hroom hfresh).1
+    have hno : ∀ p, isEdns0 heap (strippedView isSec heap m).extra ≠ some (some p) := by
+      intro p
+      have : (strippedView isSec heap m).extra = (storableView heap m).extra := rfl
+      rw [this]
+      exact storableView_no_opt heap m p
+    have h2 := packClone_leaves_message_without_opt lib (strippedView isSec heap m) heap st fresh hst.2.2.2.2 hno
+    cases hpc : packClone lib (strippedView isSec heap m) heap st fresh with
+    | mk o rest =>
+      rw [hpc] at h1 h2
+      simp only at h1 h2
+      rw [← h1]
+      cases o with
+      | ok b => exact ⟨rfl, h2⟩
+      | err e => exact ⟨rfl, h2⟩
+      | panic => exact ⟨rfl, h2⟩
 
 /-- the additional section of the view keeps every record that is not a
 `*dns.OPT`, in order, and nothing else. -/
@@ -922,6 +972,15 @@ example : ∃ f, doqWriteMsg toyLib toyMsg toyHeap = some f ∧ (f.drop 2).take 
   | some f =>
     obtain ⟨b, _, hf, hz⟩ := (doq_frame_is_library_with_id_zero toyLib toyMsg toyHeap).1 f h
     exact ⟨f, rfl, by rw [hf]; simpa [be16] using hz⟩
+
+-- the toy answer with pointer 1 counted as a signature: the stripped view drops it from Answer, keeps Extra's non-OPT
+-- records, and its DO=0 body is the library's whichever packer produced it
+example : (strippedView (fun o => o.hdr.ttl == 300 && !o.isOPT) toyHeap { toyMsg with answer := [some 1, some 3, some 9] }).answer = [some 3, some 9] := by decide
+example : (prepareStripped toyLib (fun _ => false) (fun _ => true) true toyMsg toyHeap toySt 77).1 =
+    (match (libPack toyLib (strippedView (fun _ => false) toyHeap toyMsg) toyHeap).1 with | .ok b => some b | _ => none) := by
+  have := (stripped_body_is_library toyLib toy_mono (fun _ => false) (fun _ => true) true toyMsg toyHeap toySt 77 toy_clean
+    (by decide) (by decide)).1
+  simpa using this
 
 -- the view drops both OPTs (pointers 2 and 3) and keeps the rest in order; the toy primitives satisfy Room
 example : (storableView toyHeap toyMsg).extra = [some 1, some 4] ∧ (storableView toyHeap toyMsg).compress = true := by decide
